@@ -145,10 +145,16 @@ func (r *Reporter) Finish(level string, coverage map[string]interface{}, assumpt
 		Assumptions: assumptions, WallS: time.Since(r.start).Seconds(), Violations: r.Violations, KnownHits: r.KnownHits,
 		TreeHash: os.Getenv("VERIF_TREE_HASH")}
 	b, _ := json.MarshalIndent(ev, "", " ")
-	os.MkdirAll(filepath.Join(Root, "evidence"), 0o755)
-	tmp := filepath.Join(Root, "evidence", r.Prop+".json.tmp")
-	os.WriteFile(tmp, b, 0o644)
-	os.Rename(tmp, filepath.Join(Root, "evidence", r.Prop+".json"))
+	if os.Getenv("VERIF_PART") != "" {
+		// this run is one part of a property's check (the other engine merges it)
+		os.MkdirAll(filepath.Join(Root, "evidence", "parts"), 0o755)
+		os.WriteFile(filepath.Join(Root, "evidence", "parts", r.Prop+"."+os.Getenv("VERIF_PART")+".json"), b, 0o644)
+	} else {
+		os.MkdirAll(filepath.Join(Root, "evidence"), 0o755)
+		tmp := filepath.Join(Root, "evidence", r.Prop+".json.tmp")
+		os.WriteFile(tmp, b, 0o644)
+		os.Rename(tmp, filepath.Join(Root, "evidence", r.Prop+".json"))
+	}
 	if r.Violations > 0 {
 		return 1
 	}
